@@ -305,6 +305,21 @@ theorem C03_parser_store_refines_noframes_partial (o : Opts) (pol : Policy) (uni
   obtain ⟨ops, hso⟩ := ParserSim.storeOps_total o pol units hnf
   exact ⟨ops, hso, C03_parser_store_refines_covered_partial o pol units ops hnf hso⟩
 
+/-- **C03_parser_store_refines_from_rep_partial** — pre-existing targets: from ANY world `w` that represents a consistent, rectangular,
+    frame-free initial target (`ParserSim.Rep`: one CIF whose `Store.abs` is the target, `WOk`, no iterator, a live container handle
+    for every block — e.g. the world an earlier parse left: `ParserSim.parse_leaves_rep`), a parse of any input that creates no save
+    frame: its calls have a translation w.r.t. the handle tables of `w`, are in contract, return CIF_OK, keep `WOk`, and the world then
+    shows exactly the CIF the parser model returns for that initial target. -/
+theorem C03_parser_store_refines_from_rep_partial (o : Opts) (pol : Policy) (units : Str) (m : HMap) (w : Store.World) (s : Store.Store)
+    (last : Option SOp) (hr : ParserSim.Rep o m w s last) (hok : OkCif o (Store.abs s.db)) (hrect : RectCif (Store.abs s.db))
+    (hnf : ParserSim.noFrames (storeTrace o pol (Store.abs s.db) units) = true) :
+    ∃ sops, storeOpsFrom o m (storeTrace o pol (Store.abs s.db) units) = some sops ∧
+      Store.inContractHist w sops = true ∧ (Store.run w sops).2.all (fun r => r.rc == some 0) = true ∧
+      Store.WOk (Store.run w sops).1 ∧
+      ∃ s', (Store.run w sops).1.cifs = [some s'] ∧ Store.abs s'.db = (parse o pol (Store.abs s.db) units).cif := by
+  rw [← Store.absS_tree] at hok hrect hnf ⊢
+  exact ParserSim.parse_store_sim_from o pol units m w s last hr ⟨hok, hrect⟩ hnf
+
 /-- **C03_parse_is_store_history_partial** — the calls of a (covered) parse are an IN-CONTRACT history of the store API from the empty
     world; hence the documented model with identities (`specRun`, Spec/StoreSpec) predicts every result and the final state
     (`C04_refines_from_start` applies). -/
@@ -344,6 +359,19 @@ example : ∃ ops, storeOps C03.opts2 (storeTrace C03.opts2 acceptAll [] (a!"dat
       (storeOps C03.opts2 (storeTrace C03.opts2 acceptAll [] (a!"data_a _x 1 loop_ _b 1 2"))).isSome = true := by decide +kernel
   obtain ⟨ops, hops⟩ := Option.isSome_iff_exists.mp h.2
   exact ⟨ops, hops, C03_parser_store_refines_covered_partial _ _ _ ops h.1 hops⟩
+
+set_option maxRecDepth 1000000 in
+/-- `C03_parser_store_refines_from_rep_partial` is not vacuous: the world the parse of `data_a _x 1` leaves represents a NON-EMPTY
+    target (one block with one scalar), so a second parse into the same CIF is covered -/
+example : ∃ m w s last, ParserSim.Rep C03.opts2 m w s last ∧ Store.abs s.db = (parse C03.opts2 acceptAll [] (a!"data_a _x 1")).cif ∧
+    (parse C03.opts2 acceptAll [] (a!"data_a _x 1")).cif ≠ [] := by
+  have h : ParserSim.noFrames (storeTrace C03.opts2 acceptAll [] (a!"data_a _x 1")) = true ∧
+      (parse C03.opts2 acceptAll [] (a!"data_a _x 1")).cif.length = 1 := by decide +kernel
+  obtain ⟨sops, m, s, last, _, hr, ht⟩ := ParserSim.parse_leaves_rep C03.opts2 acceptAll (a!"data_a _x 1") h.1
+  refine ⟨m, _, s, last, hr, by rw [← Store.absS_tree, ht], ?_⟩
+  intro e
+  rw [e] at h
+  cases h.2
 
 /-! ### instances of the FULL statement (and non-vacuity of the hypotheses above)
 
